@@ -40,10 +40,13 @@ func (s *Sim) checkStep(ctx *StepCtx) {
 	if ctx.Kind == "deliver" {
 		s.checkDeliver(ctx)
 	}
+	s.checkReports(ctx)
 	if ctx.Kind == "deliver" && ctx.Dg.Intent != nil && !ctx.Dup && ctx.Target != nil && ctx.Target.Live && ctx.Dg.Intent.T != "del" {
 		s.model.finishRules(ctx.Target, ctx.Dg.Intent, ctx)
 	}
-	s.checkReports(ctx)
+	if ctx.Kind == "deliver" && ctx.Dg.Intent != nil && !ctx.Dup {
+		s.checkPerioRegistration(ctx)
+	}
 	s.checkBuffers(ctx)
 	s.checkPerio(ctx)
 	s.checkGlobal(ctx)
